@@ -1,11 +1,11 @@
 #!/bin/bash
 # dev helper: build unit $1 from /repo (or $2) and run verus, printing rendered errors
-cd /verif && python3 - "$1" "${2:-/repo}" <<'PY'
+rm -f /tmp/vprobe/$1.rs; cd /verif && python3 - "$1" "${2:-/repo}" <<'PY'
 import sys; sys.path.insert(0,'lib')
 from extract import build_unit
 u=sys.argv[1]
 text, table, rec, fns = build_unit(f'units/verus/{u}.rs.tmpl',sys.argv[2])
 import os; os.makedirs('/tmp/vprobe',exist_ok=True)
-open(f'/tmp/vprobe/{u}.rs','w').write(text)
+open(f"/tmp/vprobe/{u}.rs","w").write(text)
 PY
 cd /tmp/vprobe && verus $1.rs 2>&1 | grep -v "^warning: use of deprecated" 
